@@ -494,6 +494,9 @@ def run(tier):
             is_err = rule_kinds.get(nm, ("", None))[0] == "error"
             g = dict(RULE=nm, MAY_NEWLINE=may_nl[nm], ERROR_RULE=is_err, MAXLEN=max(5 if tier == "quick" else 7, min(minw + 3, 14)), ANYTEXT=False, TWIN=False)
             tmo = 40.0 if tier == "quick" else 200.0
+            if nm == "t_PP_DIRECTIVE" and tier != "quick":
+                # regex match, substring test and % formatting on the symbolic text: 6 characters (enough for a line marker '# 0 ""') is what finishes
+                g["MAXLEN"], tmo = 6, 500.0
             alt = None
             if is_err:
                 alt = pool.submit(chrun._work, __name__, "h_rulefn_opaque", (), tmo, 10.0, g)
